@@ -110,7 +110,8 @@ func (g *gen) Generate(typs []types.Type) error {
 	}
 	g.Generating(typs...)
 	p := g.printer
-	cc := types.NewChan(types.RecvOnly, types.NewChan(types.RecvOnly, c))
+	// the channels that are joined are of the type that g returns, which need not be receive only.
+	cc := types.NewChan(types.RecvOnly, typs[1].(*types.Signature).Results().At(0).Type())
 	t0str := g.TypeString(typs[0])
 	t1str := g.TypeString(typs[1])
 	astr := g.TypeString(a)
